@@ -194,6 +194,9 @@ type c19Case struct {
 	Abstract bool      `json:"abstract,omitempty"` // events of two object types behind an interface and a union
 	ListSeed int       `json:"list_seed"`
 	Ops      []Op      `json:"ops"`
+	// Faults: fields of events whose resolver fails (strategies R and A): the subscriber still gets
+	// its message, with null at that position, and the publish reports an error
+	Faults []hx.Fault `json:"faults,omitempty"`
 }
 
 func genCaseC19(rt *rapid.T) *c19Case {
@@ -201,6 +204,19 @@ func genCaseC19(rt *rapid.T) *c19Case {
 	if c.Strategy == "X" && rapid.Bool().Draw(rt, "abstract") {
 		c.Abstract = true
 		addNotes(rt, c.Graph)
+	}
+	if c.Strategy != "X" && rapid.IntRange(0, 2).Draw(rt, "failingEventFields") == 0 {
+		for i := 0; i < rapid.IntRange(1, 3).Draw(rt, "nFaults"); i++ {
+			nd := c.Graph.Nodes[firstEvent+rapid.IntRange(0, len(c.Graph.Nodes)-firstEvent-1).Draw(rt, fmt.Sprintf("fault%dnode", i))]
+			f := rapid.SampledFrom([]string{"id", "n", "tags", "inner", "kind", "f", "more"}).Draw(rt, fmt.Sprintf("fault%dfield", i))
+			dup := false
+			for _, e := range c.Faults {
+				dup = dup || (e.Node == nd.ID && e.Field == f)
+			}
+			if !dup && nd.Type == "Event" {
+				c.Faults = append(c.Faults, hx.Fault{Node: nd.ID, Field: f, Kind: "err"})
+			}
+		}
 	}
 	schema := subSchema(c.Abstract)
 	var eventNodes []int
@@ -297,7 +313,7 @@ func genCaseC19(rt *rapid.T) *c19Case {
 // runHistory executes a history against ggql and the list model.
 func runHistory(cc *c19Case) (ds []hx.Discrepancy, traits map[string]bool, hist []string) {
 	traits = map[string]bool{}
-	c := &exec.Case{Schema: subSchema(cc.Abstract), Graph: cc.Graph, ListSeed: cc.ListSeed}
+	c := &exec.Case{Schema: subSchema(cc.Abstract), Graph: cc.Graph, ListSeed: cc.ListSeed, Faults: cc.Faults}
 	if cc.Abstract {
 		c.Register = []string{"Event", "Note"}
 	}
@@ -446,6 +462,7 @@ func runHistory(cc *c19Case) (ds []hx.Discrepancy, traits map[string]bool, hist 
 				fail("publish(%q) delivered in order %v, registration order of the matching subscribers is %v", id, order, wantOrder)
 			}
 			anyFailed := false
+			resolveErrors := 0
 			var still []*hsub
 			failedSet := map[*hsub]bool{}
 			for _, h := range matching {
@@ -453,8 +470,10 @@ func runHistory(cc *c19Case) (ds []hx.Discrepancy, traits map[string]bool, hist 
 					fail("%v received %d messages for one publish", h, len(h.msgs)-prevMsgs[h])
 					continue
 				}
-				x := &hx.Exec{S: c.Schema, G: c.Graph, D: &hx.Doc{Frags: h.frags}}
-				want := x.RunSelection(c.Graph.Nodes[evID], h.sels, nil).Data
+				x := &hx.Exec{S: c.Schema, G: c.Graph, D: &hx.Doc{Frags: h.frags}, Faults: cc.Faults}
+				exp := x.RunSelection(c.Graph.Nodes[evID], h.sels, nil)
+				want := exp.Data
+				resolveErrors += len(exp.Errors)
 				got := hx.Norm(h.msgs[len(h.msgs)-1])
 				if !hx.Equal(want, got) {
 					fail("%v received %s for event node%d, its selection gives %s", h, hx.Show(got), evID, hx.Show(want))
@@ -475,8 +494,11 @@ func runHistory(cc *c19Case) (ds []hx.Discrepancy, traits map[string]bool, hist 
 				}
 			}
 			live = still
-			if anyFailed != (err != nil) {
-				fail("publish(%q): a delivery failed = %v but err = %v", id, anyFailed, err)
+			if (anyFailed || resolveErrors > 0) != (err != nil) {
+				fail("publish(%q): a delivery failed = %v, %d fields of the event failed to resolve, but err = %v", id, anyFailed, resolveErrors, err)
+			}
+			if resolveErrors > 0 {
+				traits["event-field-fails-to-resolve"] = true
 			}
 			if len(matching) >= 2 {
 				traits["publish-with->=2-matches"] = true
